@@ -7,12 +7,14 @@ proved textually equal to the method forms.  Relative to Inv, i.e. to the contra
 each step, which the bounded stand-in B1 checks (category clauses)."""
 from .. import vcrun
 from . import _b1, _groups as GR
+from . import _f7
 
 LEVEL = "proof"
 
 
 def run(rep, tier):
     vcrun.run_functions(rep, GR.COMBINATORS, tier)
+    _f7.decide_classes(rep)      # F8: every bracket text is typed Class (an atom for concatenation and repetition)
     _b1.run(rep, tier, ["category", "valid", "total", "empty"], "syntactic category of every emitted text")
     rep.trusted += GR.TRUST
     rep.assumptions += ["hand-written escape=False patterns are out of scope (property C02)",
